@@ -19,7 +19,7 @@ func init() {
 
 var profC05 = Profile{
 	MaxBars: 7, MaxSteps: 40, Refresh: []string{"manual", "manual", "manual", "autoinj"}, QLens: []int{-1, -1, -3, -4, 128, 0, 1, -2},
-	Pop: 30, Queue: 25, Prio: true, PrioOnFinished: true, Ext: 20, Text: 1, Rm: 25, NoPop: 20, AbortW: 2, TicksW: 8, Notifier: 100,
+	Pop: 30, Queue: 25, LateSuccW: 2, Prio: true, PrioOnFinished: true, Ext: 20, Text: 1, Rm: 25, NoPop: 20, AbortW: 2, TicksW: 8, Notifier: 100,
 	Fillers: []string{"bar", "tag", "nop", "spinner", "spinnerv", "bartip"}, LateAdd: true, Cancel: 15, Pty: 20, PtyRowsMax: 8, Faults: 12, PrioMidRender: 15, AddTick: 10,
 }
 
